@@ -1187,6 +1187,8 @@ def correspond(ctx):
         dedicated(ctx, stream, m)
     ctx.assumptions.append("float64 arithmetic on small integers / dyadic rationals is exact; the log semiring is compared in linear space with rtol 1e-9")
     ctx.assumptions.append("with apply_optimizer the leaves are the tensors of the optimizer's output (its unfold pass evaluates Subs(Tensor) eagerly, outside the tape); the output is re-read into the model's syntax modulo __BOUND suffixes exactly as AdjointTape.adjoint un-mangles names")
+    ctx.assumptions.append("adjoint_sound_partial covers every node kind except Cat (tied by correspondence only: the driver's run-time echo `marginal = deriv` also runs on the Cat cases); the proved sweep is tree-shaped — the tape's DAG sharing and its keying of adjoint_values by un-mangled eager values are exercised by correspondence only (dedicated streams tape-key-collision, binder-free-clash, opt-rebinding)")
+    ctx.assumptions.append("clean-stream side conditions beyond Lean's `Good` (implementation-specific, each with its dedicated stream or owner): no diagonal substitutions (Tensor.eager_subs, C04), Cat with part_name == name, with the optimizer every variable bound once")
     ctx.assumptions.append("root inputs (free variables) are treated as batch variables: the returned adjoint is compared after summing it over the root inputs the leaf lacks")
 
 
